@@ -752,6 +752,7 @@ func runProxy(ids []ID, ops []*pop, class string) {
 		parent[i] = 0xA5
 	}
 	p, ps := c2.VerifC15NewProxy(parent)
+	defer c2.VerifC15ProxyStop(p)
 	nm := newNamer(ids)
 	var (
 		opTerms, obsTerms []string
@@ -830,10 +831,27 @@ func runProxy(ids []ID, ops []*pop, class string) {
 				}
 			}
 		}()
+		c2.VerifC15ProxyBarrier(p)
 		for _, f := range c2.VerifC15Drain(ps) {
 			up = append(up, outLeaf{f.Device, f.ID, f.Job})
 		}
 		cl := c2.VerifC15ProxyClients(p)
+		// a client entry disappears only when its own device announced its shutdown
+		{
+			now := map[ID]bool{}
+			for _, e := range cl {
+				now[e.ID] = true
+			}
+			for id := range prev {
+				if !now[id] && !(id == top && o.n.pid == c2.SvShutdown && o.kind != pAccept) {
+					key := "proxy-prune-other-device"
+					if id.Hash() == top.Hash() {
+						key = "proxy-prune-hash-collision-other-device"
+					}
+					fail("the Proxy dropped the client entry of device A on behalf of a packet naming device B", key, caseDesc())
+				}
+			}
+		}
 		if len(cl) > maxClients {
 			maxClients = len(cl)
 		}
@@ -920,6 +938,8 @@ const (
 	cClose
 	cSend
 	cPoll
+	cSendAs // Send of a packet without a Device
+	cDrain  // what the host's Channel connection sends next
 )
 
 type cop struct {
@@ -937,11 +957,12 @@ func (o *cop) desc() map[string]interface{} {
 	}
 	m := map[string]interface{}{"op": [...]string{"hello through Listener.talk", "connection switches to Channel mode (conn.channelRead starts)",
 		"Channel packet (conn.channelRead -> conn.resolve(tags, true))", "Channel connection ends (conn.stop)", "Server.Session(dev).Send",
-		"poll through Listener.talk (own connection)"}[o.kind], "dev": hx(o.d)}
+		"poll through Listener.talk (own connection)", "Server.Session(dev).Send of a packet WITHOUT a Device",
+		"the host's Channel connection sends its next packet (Session.next(false), as channelWrite does)"}[o.kind], "dev": hx(o.d)}
 	switch o.kind {
 	case cPkt:
 		m["tags"] = t
-	case cSend:
+	case cSend, cSendAs:
 		m["id"], m["job"] = int(o.pid), int(o.job)
 	case cReg:
 		m["job"] = int(o.job)
@@ -957,6 +978,7 @@ func runChan(ids []ID, ops []*cop, class string) {
 	srv, l := c2.VerifC15NewServer(keys)
 	open := map[ID]*c2.VerifC15Chan{}
 	lastTags := map[ID][]uint32{} // the tag list of the last Channel packet of each host with a running Channel
+	noDev := map[uint16]ID{}      // job of a packet written without a Device -> the session it was written to
 	defer func() {
 		for _, h := range open {
 			h.Close()
@@ -984,6 +1006,7 @@ func runChan(ids []ID, ops []*cop, class string) {
 			leafs    []outLeaf
 						skipped  bool
 			sentTo   *ID
+			leftOn   *ID // the device whose connection the leafs of this step left on
 			sentJob  uint16
 			prevRts  = c2.VerifC15Routes(srv)
 			reg      = srv.Session(o.d)
@@ -993,6 +1016,10 @@ func runChan(ids []ID, ops []*cop, class string) {
 			if e.ID != o.d && e.ID.Hash() == o.d.Hash() {
 				collUsed = true
 			}
+		}
+		if reg != nil && reg.ID != o.d { // never steer the history by a session that is not the device's own
+			fail("Server.Session(B) returned the session of another device A with the same 32-bit hash", "server-session-hash-only", caseDesc())
+			reg = nil
 		}
 		func() {
 			defer func() {
@@ -1066,6 +1093,25 @@ func runChan(ids []ID, ops []*cop, class string) {
 					return
 				}
 				talk(&com.Packet{Device: o.d})
+				leftOn = &o.d
+			case cSendAs:
+				if reg == nil {
+					ans = "(AFound None)"
+					return
+				}
+				i := reg.ID
+				ans = "(AFound " + nm.oid(&i) + ")"
+				reg.Send(&com.Packet{ID: o.pid, Job: o.job})
+				noDev[o.job] = i
+			case cDrain:
+				if !isOpn || open[o.d].Queued() == 0 {
+					ans, skipped = "(ABool false)", true
+					return
+				}
+				leafs = flatten(open[o.d].Next())
+				sortLeafs(leafs)
+				ans = fmt.Sprintf("(AReply true %s)", nm.outs(leafs))
+				leftOn = &o.d
 			}
 		}()
 		if !c2.VerifC15Barrier(srv) {
@@ -1110,10 +1156,33 @@ func runChan(ids []ID, ops []*cop, class string) {
 			opTerms = append(opTerms, "KClose "+nm.id(o.d))
 		case cSend:
 			opTerms = append(opTerms, fmt.Sprintf("KSend %s %d %d", nm.id(o.d), o.pid, o.job))
+		case cSendAs:
+			opTerms = append(opTerms, fmt.Sprintf("KSendAs %s %s %d %d", nm.id(o.d), vh.Bytes(local.UUID[:]), o.pid, o.job))
+		case cDrain:
+			opTerms = append(opTerms, "KDrain "+nm.id(o.d))
 		default:
 			opTerms = append(opTerms, "KPoll "+nm.id(o.d))
 		}
 		obsTerms = append(obsTerms, fmt.Sprintf("CObs %s %s %s", ans, vh.List(ts), vh.List(cs)))
+		// ---- oracle (0): a packet written to A's session without a Device never leaves as the packet of another
+		// registered device (in particular not as the relaying host's own)
+		if leftOn != nil {
+			for _, lf := range leafs {
+				w, ok := noDev[lf.job]
+				if !ok || lf.pid < 0xD0 || lf.dev == w || lf.dev == local.UUID {
+					continue
+				}
+				for _, e := range rts {
+					if e.ID == lf.dev {
+						key := "deviceless-packet-left-as-other-device"
+						if lf.dev == *leftOn {
+							key = "deviceless-packet-left-as-the-relays-own"
+						}
+						fail("a packet written to the session of device A without a Device left the server naming another registered device", key, caseDesc())
+					}
+				}
+			}
+		}
 
 		// ---- oracle: outbound packets are only handed to the connection that serves their device.
 		// A Channel connection serves the devices its host tagged in its LAST packet (and the host).
@@ -1565,7 +1634,7 @@ func main() {
 	out.Extra("colliding_pairs", ps)
 
 	// ---- hash and constants
-	out.Add(fmt.Sprintf("CConsts %d %d %d %d", c2.SvHello, c2.SvRegister, c2.SvComplete, task.MvRefresh), "consts", true, "SvHello SvRegister SvComplete MvRefresh")
+	out.Add(fmt.Sprintf("CConsts %d %d %d %d %d", c2.SvHello, c2.SvRegister, c2.SvComplete, task.MvRefresh, c2.SvShutdown), "consts", true, "SvHello SvRegister SvComplete MvRefresh SvShutdown")
 	var z, f ID
 	for i := range f {
 		f[i] = 0xFF
@@ -1634,6 +1703,14 @@ func main() {
 		{kind: pTalk, n: leaf{dev: b, pid: c2.RvResult, job: nextJob(), body: bData}}, {kind: pTalk, n: leaf{dev: a, pid: c2.RvResult, job: nextJob(), body: bData}},
 		{kind: pTalkSub, n: leaf{dev: b, pid: c2.RvResult, job: nextJob(), body: bData}}, {kind: pTalk, n: leaf{dev: b, pid: c2.SvHello, job: nextJob(), body: bHello}},
 		{kind: pTalk, n: leaf{dev: c, pid: c2.RvResult, job: nextJob(), body: bData}}}, "corpus-proxy")
+	// shutdown announcements: of an unregistered colliding device (nothing changes, re-registration request), of an
+	// unknown device, of the registered client (its entry goes, its next packet gets the request), through talk and talkSub
+	runProxy([]ID{a, b, c}, []*pop{{kind: pTalkSub, n: leaf{dev: a, pid: c2.SvHello, job: nextJob(), body: bHello}},
+		{kind: pTalkSub, n: leaf{dev: b, pid: c2.SvShutdown, job: nextJob(), body: bEmpty}}, {kind: pTalk, n: leaf{dev: b, pid: c2.SvShutdown, job: nextJob(), body: bEmpty}},
+		{kind: pTalkSub, n: leaf{dev: c, pid: c2.SvShutdown, job: nextJob(), body: bData}}, {kind: pTalkSub, n: leaf{dev: a, pid: c2.SvDrop, job: nextJob(), body: bEmpty}},
+		{kind: pTalkSub, n: leaf{dev: a, pid: c2.SvResync, job: nextJob(), body: bData}}, {kind: pTalkSub, n: leaf{dev: a, pid: c2.SvShutdown, job: nextJob(), body: bEmpty}},
+		{kind: pTalkSub, n: leaf{dev: a, pid: c2.RvResult, job: nextJob(), body: bData}}, {kind: pTalk, n: leaf{dev: c, pid: c2.SvHello, job: nextJob(), body: bHello}},
+		{kind: pTalk, n: leaf{dev: c, pid: c2.SvShutdown, job: nextJob(), body: bEmpty}}, {kind: pTalk, n: leaf{dev: c, pid: c2.RvResult, job: nextJob(), body: bData}}}, "corpus-proxy")
 
 	// ---- random histories
 	nHist, nProxy := 260, 120
@@ -1665,7 +1742,7 @@ func main() {
 				o.n.body = bData // the proxy never reads key material
 			}
 			switch r := rng.Intn(10); {
-			case r < 5:
+			case r < 4:
 				o.kind, o.tags = pTalk, genTags(pool)
 			case r < 7:
 				o.kind, o.o = pTalkSub, rng.Intn(4) == 0
@@ -1673,6 +1750,12 @@ func main() {
 				o.kind = pAccept
 				if o.n.pid == c2.SvHello {
 					o.n.pid, o.n.body = uint8(0xD0+rng.Intn(8)), bData
+				}
+			}
+			if o.kind != pAccept && o.n.pid != c2.SvHello && rng.Intn(9) == 0 { // a client announces its shutdown
+				o.n.pid = c2.SvShutdown
+				if rng.Bool() {
+					o.n.body = bEmpty
 				}
 			}
 			ops = append(ops, o)
@@ -1689,6 +1772,10 @@ func main() {
 		// chan_demo of Proofs/Table.v (C15_channel_nonvacuous)
 		runChan([]ID{fa, fc}, []*cop{{kind: cReg, d: fa, job: 10}, {kind: cReg, d: fc, job: 11}, {kind: cPoll, d: fa}, {kind: cPoll, d: fc}, {kind: cOpen, d: fa},
 			pk(fa, fc.Hash()), {kind: cSend, d: fc, pid: 208, job: 12}, pk(fa), {kind: cSend, d: fc, pid: 209, job: 13}}, "corpus-chan")
+		// packets without a Device: to a directly connected device, to a device routed into a's Channel, what leaves where
+		sna := func(x ID) *cop { return &cop{kind: cSendAs, d: x, pid: uint8(0xD0 + rng.Intn(8)), job: nextJob()} }
+		runChan([]ID{a, c, d}, []*cop{reg(a), reg(c), reg(d), {kind: cPoll, d: a}, {kind: cPoll, d: c}, {kind: cPoll, d: d}, sna(d), {kind: cPoll, d: d},
+			{kind: cOpen, d: a}, pk(a, c.Hash()), sna(c), snd(c), {kind: cDrain, d: a}, sna(a), {kind: cDrain, d: a}, pk(a), sna(c), {kind: cPoll, d: c}, {kind: cDrain, d: a}}, "corpus-chan")
 		// the host tags c, then nobody (empty list), then c again, then ends; a packet is queued for c in each phase
 		runChan([]ID{a, c}, []*cop{reg(a), reg(c), {kind: cPoll, d: a}, {kind: cPoll, d: c}, {kind: cOpen, d: a}, pk(a, c.Hash()), snd(c), pk(a), snd(c),
 			{kind: cPoll, d: c}, pk(a, c.Hash()), snd(c), {kind: cClose, d: a}, snd(c), {kind: cPoll, d: c}, {kind: cPoll, d: a}}, "corpus-chan")
@@ -1752,8 +1839,15 @@ func main() {
 				prev = o.tags
 			case r < 55:
 				o.kind = cClose
-			case r < 85:
+			case r < 76:
 				o.kind, o.pid, o.job = cSend, uint8(0xD0+rng.Intn(8)), nextJob()
+			case r < 84:
+				o.kind, o.pid, o.job = cSendAs, uint8(0xD0+rng.Intn(8)), nextJob()
+			case r < 91:
+				o.kind = cDrain
+				if rng.Intn(3) > 0 {
+					o.d = ops[0].d
+				}
 			default:
 				o.kind = cPoll
 			}
